@@ -6,12 +6,12 @@ CONSTANTS
   MaxBuilds = 2
   MaxNest = 2
   MaxMisc = 1
-  FBSel = {1,2,3,4,5,6,7,8,9}
+  FBSel = {1,2,3,4,5,6,7,8,9,10,11}
   RCSel = {1,2,3,4,5}
   RDSel = {1,2,3}
-  RESel = {1,2,3,4,5,6,7}
+  RESel = {1,2,3,4,5,6,7,8}
   RNSel = {1,2}
-  BBSel = {1,2,3,4,5,6,7,8}
+  BBSel = {1,2,3,4,5,6,7,8,9,10}
   OutSel = {1,2,3,4}
   InSel = {1,2,3,4,5,6}
   BRSel = {1,2,3}
@@ -22,6 +22,7 @@ NEXT Next
 INVARIANT BuildShadowsAll
 INVARIANT RuleOverFileLazy
 INVARIANT FileFallback
+INVARIANT EmptyShadows
 INVARIANT InOut
 INVARIANT BuildValuesInFileScope
 INVARIANT PathsSeeBuildBindings
